@@ -44,8 +44,9 @@ NP_OF = {
     'C17': [('StateTrajInit', ['init']), ('UtilsRelabel', ['rename_by_index'])],
     'C16': [('IoLimits', ['open_limits_file'])],
     'C06': [('MdTimesApi', ['estimate_waiting_times', 'estimate_paths'])],
-    'C13': [('MdCompareApi', ['compare_discretization_symmetric', 'compare_discretization_directed'])],
-    'C07': [('MsmCummat', ['_get_cummat']), ('MsmMcmcApi', ['propagate_MCMC'])],
+    'C13': [('MdCompareApi', ['compare_discretization_symmetric', 'compare_discretization_directed', 'compare_discretization_api_symmetric',
+                              'compare_discretization_api_directed', 'compare_discretization_api_other'])],
+    'C07': [('MsmCummat', ['_get_cummat']), ('MsmMcmcApi', ['propagate_MCMC']), ('UtilsDatasets', ['propagate_tmat_start', 'propagate_tmat_random'])],
     'C08': [('MsmCummat', ['_get_cummat']), ('MsmTimes', ['estimate_times_list', 'estimate_times_hist']), ('StateTrajBase', ['state_to_idx'])],
 }
 for _pid, _mods in NP_OF.items():
@@ -56,7 +57,7 @@ SOURCE_OF = {'MsmMsm': 'msm/msm.py', 'MdCorrections': 'md/corrections.py', 'MdTi
              'UtilsTests': 'utils/tests.py', 'MsmNorm': 'msm/msm.py', 'PlotCkTest': 'plot/_ck_test.py', 'MsmTests': 'msm/tests.py',
              'StateTrajHS': 'statetraj.py', 'MsmCummat': 'msm/timescales.py', 'MsmTimes': 'msm/timescales.py', 'StateTrajBase': 'statetraj.py',
              'UtilsRelabel': 'utils/_utils.py', 'StateTrajInit': 'statetraj.py', 'StateTrajAcc': 'statetraj.py', 'LumpedAcc': 'statetraj.py', 'StateTrajEst': 'statetraj.py', 'LumpedEst': 'statetraj.py', 'MsmEstimate': 'msm/msm.py', 'MsmMcmcApi': 'msm/timescales.py', 'UtilsFiltering': 'utils/filtering.py', 'IoLimits': 'io.py',
-             'MdCompareApi': 'md/comparison.py', 'MdTimesApi': 'md/timescales.py', 'MdCoringApi': 'md/corrections.py'}
+             'UtilsDatasets': 'utils/datasets.py', 'MdCompareApi': 'md/comparison.py', 'MdTimesApi': 'md/timescales.py', 'MdCoringApi': 'md/corrections.py'}
 ATOL = 1e-8
 G = 1 << 53
 
@@ -218,6 +219,12 @@ def gen_cases(module, kernel, rng, n):
             trajs = [[labs[i] for i in _sticky(rng, rng.randint(1, 14), ns_)] for _ in range(rng.randint(1, 3))]
             if module == 'MdCompareApi':
                 other = [[(x * 7 + 3) % rng.choice([2, 3, 4]) for x in t] for t in trajs]
+                if 'api' in kernel:
+                    r_ = rng.random()
+                    if r_ < 0.15:
+                        other = [o[:-1] for o in other if len(o) > 1] or [[0, 1]]          # unequal frame counts
+                    elif r_ < 0.3:
+                        other = [[5 for _ in t] for t in other]                               # a single-state labeling
                 yield {'k': kernel, 'args': None, 't1': trajs, 't2': other, 'mode': 'py'}
             elif module == 'MdTimesApi':
                 occ = sorted({x for t in trajs for x in t})
@@ -303,6 +310,15 @@ def gen_cases(module, kernel, rng, n):
                 yield {'k': kernel, 'args': [trajs, lag, ns_, sorted(rng.sample(range(-9, 40), ns_)), False], 'mode': 'py'}
             else:
                 yield {'k': kernel, 'args': [trajs, lag, ns_, False], 'mode': 'py'}
+        elif module == 'UtilsDatasets':
+            m = None
+            while m is None or len(m) != len(m[0]):
+                m = _np_matrix(rng)
+            n_ = len(m)
+            if kernel.endswith('start'):
+                yield {'k': kernel, 'args': [_ratmat(m), rng.randint(1, 30), rng.randrange(n_)], 'floats': m, 'mode': 'py'}
+            else:
+                yield {'k': kernel, 'args': [_ratmat(m), rng.randint(1, 30)], 'floats': m, 'oracle': {'randint': rng.randrange(n_)}, 'mode': 'py'}
         elif module == 'MsmMcmcApi':
             labs = sorted(rng.sample(range(-6, 30), rng.randint(1, 6)))
             steps = rng.randint(1, 12)
@@ -452,7 +468,7 @@ def real_one(module, case):
     elif module == 'MsmMcmcApi':
         inputs = {'args': case['args'], 'oracle': {'choice': case['args'][0][0], 'cummat': [[['1']], [[0]]], 'propagate': case['chain']}}
         fn = None
-    elif module in ('MsmEstimate', 'UtilsRelabel', 'StateTrajInit'):
+    elif module in ('MsmEstimate', 'UtilsRelabel', 'StateTrajInit', 'UtilsDatasets'):
         inputs, fn = None, None
     elif module in ('StateTrajBase', 'UtilsFiltering', 'IoLimits'):
         inputs, fn = None, None
@@ -559,9 +575,14 @@ def real_one(module, case):
             if module == 'MdCompareApi':
                 o1 = mh.StateTraj([np.array(t, dtype=np.int64) for t in case['t1']])
                 o2 = mh.StateTraj([np.array(t, dtype=np.int64) for t in case['t2']])
-                meth = 'symmetric' if case['k'].endswith('symmetric') else 'directed'
-                inputs = {'args': [[int(x) for x in o1.index_trajs_flatten], int(o1.nstates), [int(x) for x in o2.index_trajs_flatten], int(o2.nstates), flag]}
-                case = dict(case, _run=lambda: core.rat_str(float(mod._compare_discretization(o1, o2, meth))))
+                meth = 'symmetric' if case['k'].endswith('symmetric') else ('directed' if case['k'].endswith('directed') else 'jaccard')
+                if 'api' in case['k']:
+                    inputs = {'args': [[int(x) for x in o1.index_trajs_flatten], int(o1.nstates), int(o1.nframes),
+                                       [int(x) for x in o2.index_trajs_flatten], int(o2.nstates), int(o2.nframes), flag]}
+                    case = dict(case, _run=lambda: core.rat_str(float(mod.compare_discretization(o1, o2, method=meth))))
+                else:
+                    inputs = {'args': [[int(x) for x in o1.index_trajs_flatten], int(o1.nstates), [int(x) for x in o2.index_trajs_flatten], int(o2.nstates), flag]}
+                    case = dict(case, _run=lambda: core.rat_str(float(mod._compare_discretization(o1, o2, meth))))
             elif module == 'MdTimesApi':
                 o1 = mh.StateTraj([np.array(t, dtype=np.int64) for t in case['trajs']])
                 inputs = {'args': [[int(x) for x in o1.states], [[int(x) for x in t] for t in o1.trajs], case['S'], case['F'], flag]}
@@ -742,6 +763,23 @@ def real_one(module, case):
                 return [int(v) for v in mod.open_limits(a[0], limits_file='limits.dat')]
             finally:
                 mod.opentxt = saved
+        if module == 'UtilsDatasets':
+            import math
+            o_pr, o_ri = mod._propagate_MCMC, np.random.randint
+
+            def echo(cummat, start, steps):
+                cm, perm = cummat
+                return np.array([int(start), int(steps)] + [int(math.floor(float(x) * 1024)) for x in np.asarray(cm).reshape(-1)] +
+                                [int(x) for x in np.asarray(perm).reshape(-1)], dtype=np.int64)
+            mod._propagate_MCMC = echo
+            if 'oracle' in case:
+                np.random.randint = lambda n_: case['oracle']['randint']
+            try:
+                mat = np.array(case['floats'], dtype=np.float64)
+                res = mod.propagate_tmat(mat, a[1], a[2]) if k.endswith('start') else mod.propagate_tmat(mat, a[1])
+                return [int(v) for v in res]
+            finally:
+                mod._propagate_MCMC, np.random.randint = o_pr, o_ri
         if module == 'MsmMcmcApi':
             import msmhelper as mh
             o_cm, o_pr, o_ch = mod._get_cummat, mod._propagate_MCMC, np.random.choice
